@@ -41,6 +41,9 @@ def dec(fr: F, digits=12) -> str:
 def fmt_quantity(rng, value: F, base: str, digits=None, prefixes=None) -> str:
     """A quantity string denoting (approximately) `value` base units, with a seeded prefix choice."""
     if base == 'U':
+        if rng.random() < 0.04 and value != 0:
+            p = rng.choice(['m', 'k'])      # a spelling the library may refuse; if it accepts it, it has to mean it
+            return f"{dec(value / M.PREFIXES[p], digits or 8)} {p}U"
         return f"{dec(value, digits or 8)} U"
     table = prefixes or {'L': VOL_PREFIXES, 'g': MASS_PREFIXES, 'mol': MOL_PREFIXES}[base]
     good = [p for p in table if F(1, 10 ** 4) <= abs(value) / M.PREFIXES[p] < 10 ** 6] if value != 0 else table
@@ -567,6 +570,10 @@ class GenA:
                     ssel = {'k': 'sub', 'base': {'k': 'rect', 'r': [r, r1, None], 'c': [c, c1, None], 'rl': False, 'cl': False},
                             'sub': [[0, 1], [0, 1]]}
             dsel = self.maybe_sub(gen_selector(rng, dshape, allow_list=self.p.get('list_w', 1)), dshape)
+            if ssel.get('k') == 'cell' and rng.random() < self.p.get('p_known_region', 0.05):
+                # the one source well written as a one-element list (at present such a call raises: known finding; if a
+                # library version accepts it, the result is judged like any other one-to-many transfer)
+                ssel = {'k': 'list', 'cells': [[ssel['r'], ssel['c']]], 'forms': [rng.choice(['str', 'tup', 'lab'])]}
         elif form == 'N>1':
             ssel = self.maybe_sub(self.sel_biased_nonempty(ms, allow_list=self.p.get('list_w', 1)), sshape)
             dsel = gen_selector(rng, dshape, 'cell')
@@ -580,6 +587,13 @@ class GenA:
                     h = 2
             ssel = gen_selector(rng, sshape, (h, w))
             dsel = gen_selector(rng, dshape, (h, w))
+            if rng.random() < self.p.get('p_known_region', 0.05) and min(sshape[0] * sshape[1], dshape[0] * dshape[1]) >= 2:
+                # element-wise between two lists of wells of equal length (known-finding region, see above)
+                n = rng.randint(2, min(4, sshape[0] * sshape[1], dshape[0] * dshape[1]))
+                sc = rng.sample([(r, c) for r in range(1, sshape[0] + 1) for c in range(1, sshape[1] + 1)], n)
+                dc = rng.sample([(r, c) for r in range(1, dshape[0] + 1) for c in range(1, dshape[1] + 1)], n)
+                ssel = {'k': 'list', 'cells': [list(x) for x in sc], 'forms': [rng.choice(['str', 'tup', 'lab']) for _ in sc]}
+                dsel = {'k': 'list', 'cells': [list(x) for x in dc], 'forms': [rng.choice(['str', 'tup', 'lab']) for _ in dc]}
         elif form == 'bad':
             ssel = gen_selector(rng, sshape)
             dsel = gen_selector(rng, dshape)
